@@ -294,6 +294,16 @@ def run(tier, fx=None, ck=None, control=False):
         if not ok8:
             ck.finding("E8.initialisers-follow-super", "E8.initialisers-follow-super/%s" % f8.path, F.short_span(sp8),
                        "`%s`: %s - in a derived class `y = this.x + 1` reads an uninitialised `this` (NaN) and `constructor(public x) { super() }` is overwritten by the base class" % (f8.path, why8))
+    # ------------------------------------------------------------ E9
+    import selfcmp
+    ck.rule("E9.number-test-by-type", "no equality opcode emitted by the compiler compares a register with itself or with a unary opcode of itself "
+                                      "(`+v === v` is false for NaN: a NaN-valued computed enum member would lose its reverse entry)", floor=5 if own else 0)
+    for f9, sp9, v9, ok9, why9 in selfcmp.rule(fx, (lambda g: g.file.startswith("src/compiler")) if own else (lambda g: g.path.startswith("c04e9::"))):
+        ck.instance("E9.number-test-by-type", "%s emits Op::%s" % (f9.path, v9), F.short_span(sp9), ok=ok9)
+        if not ok9:
+            ck.finding("E9.number-test-by-type", "E9.number-test-by-type/%s/%s" % (f9.path, v9), F.short_span(sp9),
+                       "`%s` emits Op::%s that %s: such a test separates NaN from the other numbers, it is not a test for `number` "
+                       "(`enum E { A = NaN }`: tsc emits `E[E[\"A\"] = NaN] = \"A\"`, so `E[NaN]` is \"A\")" % (f9.path, v9, why9))
     if not own:
         return None
     ctl = F.load_fixture()
@@ -301,7 +311,7 @@ def run(tier, fx=None, ck=None, control=False):
     run(tier, ctl, ck2, control=True)
     got = {f[0] for f in ck2.findings}
     need = {"PP1.modifier-set", "PP2.stores-after-binding", "PP3.stores-before-fields", "E1.forward-every-member", "E2.reverse-gate",
-            "E3.binding-first", "E5.merge", "E6.auto-increment", "E7.static-value-agrees", "N1.exportable-kinds"}
+            "E3.binding-first", "E5.merge", "E6.auto-increment", "E7.static-value-agrees", "N1.exportable-kinds", "E9.number-test-by-type"}
     if not need <= got:
         ck.closed_fail.append("control failed: the fixture lowering must be reported by %s, got %s" % (sorted(need), sorted(got)))
     ck.note("positive control (fixture c04) reported by: %s" % sorted(got))
